@@ -206,6 +206,7 @@ func DiffWallet(got, want WalletObs) []string {
 
 // CheckLedger is the C01 oracle in a quiescent state.
 func (w *World) CheckLedger() (diffs []string, obs *Obs) {
+	diffs = append(diffs, w.Panics...)
 	l := w.Ledger()
 	obs = w.Observe()
 	if obs.SyncedTo != l.Height {
